@@ -1,5 +1,5 @@
 (* Pinned statements of C01: re-checked on every run. *)
-From SF Require Import Base.Prelude Gen.Generated Unsized.Types Unsized.Parse Unsized.Machine Unsized.Ops Unsized.Proofs.EncodeParse Unsized.Proofs.Mem Unsized.Proofs.Notify Unsized.Proofs.Flat Properties.C01.
+From SF Require Import Base.Prelude Gen.Generated Unsized.Types Unsized.Parse Unsized.Machine Unsized.Ops Unsized.Proofs.EncodeParse Unsized.Proofs.Mem Unsized.Proofs.Notify Unsized.Proofs.Flat Unsized.Proofs.Layout Unsized.Proofs.Observe Unsized.Proofs.Path Unsized.Proofs.Context Unsized.Proofs.FocusOps Unsized.Proofs.NotifyInside Unsized.Proofs.Resize Unsized.Proofs.GenOps Unsized.Proofs.History Properties.C01.
 
 Check (C01_flat_step_refines :
   forall ts vs s top o vs',
@@ -40,6 +40,44 @@ Check (C01_flat_reborrow :
     exists top, get_ptr ovf (TStruct ts) (m_mem s) 0 (m_len s) = Ok (top, m_len s) /\ Rep ts vs s top).
 Check (C01_notify_shift :
   forall t p src c m, after src t p = true -> notify t p src c m = Ok (shift c p, m)).
+Check (C01_general_descent :
+  forall ovf r pre t v s top X xv,
+    RepF pre t v s top -> resolve t v (pre ++ r) = Some (X, xv) ->
+    exists top', menter ovf t s top (mpath pre) r = Ok top' /\ RepF (pre ++ r) t v s top').
+Check (C01_general_step_refines :
+  forall ovf t v s top pi0 o v',
+    RepF pi0 t v s top -> m_refuse s <> 1 -> ostepG (m_cap s) t v o = Some v' ->
+    exists s' top', mstepG ovf t s top o = Ok (s', top', []) /\ RepF (focus_of o) t v' s' top' /\
+                    m_cap s' = m_cap s /\ m_refuse s' = m_refuse s).
+Check (C01_general_run_refines :
+  forall ovf t h v s top pi0 v',
+    RepF pi0 t v s top -> m_refuse s <> 1 -> orunG (m_cap s) t v h = Some v' ->
+    exists s' top' pi', mrunG ovf t s top h = Ok (s', top') /\ RepF pi' t v' s' top' /\ m_cap s' = m_cap s).
+Check (C01_general_notify_inside :
+  forall pi t last v p X xv xv' c h pre post,
+    plain t = true -> ty_ok last t = true -> wf t v = true ->
+    resolve t v pi = Some (X, xv) -> container X = true ->
+    LayP Lay pi t v (zlen pre) p ->
+    zlen h = zlen (encode X xv) + c ->
+    zlen (encode X xv') = zlen (encode X xv) + c ->
+    0 <= zlen (encode X xv) + c ->
+    zlen (encode t v) + c < U32_LIMIT ->
+    exists p',
+      notify t p (addr_of t v pi (zlen pre)) c (pre ++ fst (hctx t v pi 0) ++ h ++ snd (hctx t v pi 0) ++ post)
+      = Ok (p', pre ++ fst (hctx t v pi c) ++ h ++ snd (hctx t v pi 0) ++ post)
+      /\ LayP (EndNotified xv c) pi t (plug t v pi xv') (zlen pre) p').
+Check (C01_general_observable :
+  forall ovf pi t v s top, RepF pi t v s top ->
+    owned_ptr ovf t (m_mem s) top = Ok v /\
+    ztake (m_len s) (m_mem s) = encode t v /\
+    m_len s = byte_size t v /\
+    parse ovf t (ztake (m_len s) (m_mem s)) = Ok (v, m_len s) /\
+    top_check s top = true).
+Check (C01_general_reborrow :
+  forall ovf t v s,
+    plain t = true -> ty_ok true t = true -> wf t v = true ->
+    (exists junk, m_mem s = encode t v ++ junk) -> m_len s = zlen (encode t v) -> m_cap s < U32_LIMIT ->
+    exists top, get_ptr ovf t (m_mem s) 0 (m_len s) = Ok (top, m_len s) /\ RepF [] t v s top).
 
 Print Assumptions C01_flat_step_refines.
 Print Assumptions C01_flat_run_refines.
@@ -50,3 +88,9 @@ Print Assumptions C01_flat_remove_index_error.
 Print Assumptions C01_flat_observable.
 Print Assumptions C01_flat_reborrow.
 Print Assumptions C01_notify_shift.
+Print Assumptions C01_general_descent.
+Print Assumptions C01_general_step_refines.
+Print Assumptions C01_general_run_refines.
+Print Assumptions C01_general_notify_inside.
+Print Assumptions C01_general_observable.
+Print Assumptions C01_general_reborrow.
